@@ -356,6 +356,166 @@ def r5_who_may_call(L, repo, tier):
          st[0].lineno if st else None)
 
 
+def r6_list_identity(L, repo):
+    """R6: the forwarder looks for receivers in the list the application registers transceivers in. The list object
+    handed to BurstForwarder(...) is an alias; delivery to 'every other running transceiver' needs that, from the
+    hand-over on, the owner never REBINDS the attribute holding it (in-place append/remove keep the alias valid).
+    Decided on the resolved program: attribute chain of the constructor argument, stores to each attribute of the
+    chain, and - only if a rebinding store exists outside a constructor - whether the function holding it can run
+    after the hand-over (CFG reachability inside Application.__init__, name-resolved call closure elsewhere)."""
+    ci, init = repo.need_method("fake_trx", "Application", "__init__")
+    F = rel("fake_trx")
+    fn = "Application.__init__"
+    L.unit(F)
+    L.fn(F, fn)
+    cons = [c for c in calls_in(init) if canon(c.func) in ("BurstForwarder", "burst_fwd.BurstForwarder")]
+    L.floor("C02.R6", "BurstForwarder construction in Application.__init__", len(cons), 1)
+    cfg = CFG(init)
+    mods = repo.tk_modules()
+    # name-resolved call graph over the toolkit: function -> names it calls
+    funcs = {}
+    for m in mods:
+        for c in m.classes.values():
+            for mn, fd in c.methods.items():
+                funcs.setdefault(mn, []).append((m, c, fd))
+        for fname, fd in m.funcs.items():
+            funcs.setdefault(fname, []).append((m, None, fd))
+
+    def callee_names(node):
+        out = set()
+        for c in calls_in(node):
+            f = c.func
+            out.add(f.attr if isinstance(f, ast.Attribute) else f.id if isinstance(f, ast.Name) else None)
+        out.discard(None)
+        return out
+
+    for con in cons:
+        if not con.args:
+            # the forwarder starts with its own list: registration must go through the forwarder then (not this design)
+            raise AnalysisError("BurstForwarder() is built without a transceiver list: hand-over not recognised")
+        arg = con.args[0]
+        chain = []
+        e = arg
+        while isinstance(e, ast.Attribute):
+            chain.append(e.attr)
+            e = e.value
+        if not (isinstance(e, ast.Name) and e.id == "self") or not chain:
+            raise AnalysisError("BurstForwarder(%s): argument is not an attribute chain on self" % canon(arg))
+        chain.reverse()
+        cnode = cfg.node_of(con)
+        # functions that may run after the hand-over
+        after = set()
+        for node in cfg.stmts():
+            if node is not cnode and cfg.reachable(cnode, node) and node.kind in ("stmt", "cond", "loop", "with"):
+                a = node.ast
+                hdr = a.iter if isinstance(a, ast.For) else a.test if isinstance(a, (ast.If, ast.While)) else \
+                    a.items[0].context_expr if isinstance(a, ast.With) else a
+                after |= callee_names(hdr)
+        before_only = set()
+        for node in cfg.stmts():
+            if node.kind in ("stmt", "cond", "loop", "with") and not cfg.reachable(cnode, node):
+                a = node.ast
+                hdr = a.iter if isinstance(a, ast.For) else a.test if isinstance(a, (ast.If, ast.While)) else \
+                    a.items[0].context_expr if isinstance(a, ast.With) else a
+                before_only |= callee_names(hdr)
+        # every other entry point of the application runs after construction
+        for mn, fd in ci.methods.items():
+            if mn != "__init__" and mn not in before_only:
+                after.add(mn)
+        # closure
+        work, seen = list(after), set()
+        while work:
+            n_ = work.pop()
+            if n_ in seen:
+                continue
+            seen.add(n_)
+            for m_, c_, fd_ in funcs.get(n_, []):
+                if fd_.name == "__init__":
+                    continue
+                for x in callee_names(fd_):
+                    if x not in seen:
+                        work.append(x)
+        after = seen
+        # walk the chain: owner class of each attribute
+        owner = ci
+        for depth, attr in enumerate(chain):
+            if owner is None:
+                raise AnalysisError("BurstForwarder(%s): owner class of `.%s` does not resolve" % (canon(arg), attr))
+            rebinding = []
+            for c_ in repo.mro(owner):
+                for mn, fd in c_.methods.items():
+                    for n_, k in attr_accesses(fd, attr):
+                        if k in ("store", "del") and isinstance(n_.value, ast.Name) and n_.value.id == "self":
+                            rebinding.append((c_, mn, fd, n_))
+            # stores from outside the class (obj.attr = ...), e.g. in the application
+            for m in mods:
+                for n_, k in attr_accesses(m.tree, attr):
+                    if k in ("store", "del") and not (isinstance(n_.value, ast.Name) and n_.value.id == "self"):
+                        rebinding.append((None, qualname(n_), None, n_))
+            bad = []
+            for c_, mn, fd, n_ in rebinding:
+                if c_ is owner and owner is ci and mn == "__init__":
+                    # the application's own constructor: only stores reachable AFTER the hand-over matter
+                    sn = cfg.node_of(n_)
+                    if sn is not None and cfg.reachable(cnode, sn) and sn is not cnode:
+                        bad.append("%s.%s" % (c_.name, mn))
+                    continue
+                if c_ is not None and mn == "__init__":
+                    continue            # construction of the owner itself
+                if c_ is None:
+                    # foreign store: which function holds it?
+                    holder = mn.split(".")[-1]
+                    if holder in after or holder == "<module>":
+                        bad.append(mn)
+                    elif holder == "__init__" and "Application" in mn:
+                        sn = cfg.node_of(n_)
+                        if sn is not None and cfg.reachable(cnode, sn):
+                            bad.append(mn)
+                    continue
+                if mn in after:
+                    bad.append("%s.%s" % (c_.name, mn))
+            L.ob("C02.R6", F, fn,
+                 "the list handed to the forwarder (`%s`) stays the list transceivers are registered in: `.%s` of %s is not "
+                 "rebound by code that can run after the hand-over" % (canon(arg), attr, owner.name),
+                 [], sorted(set(bad)), not bad, con.lineno)
+            # next owner: class of self.<attr> from the constructor of the current owner
+            nxt = None
+            c0, i0 = repo.find_method(owner, "__init__")
+            if i0 is not None:
+                for n_ in ast.walk(i0):
+                    if isinstance(n_, ast.Assign) and any(isinstance(t, ast.Attribute) and t.attr == attr and
+                                                          canon(t.value) == "self" for t in n_.targets):
+                        v = n_.value
+                        if isinstance(v, ast.Call):
+                            nm = v.func.attr if isinstance(v.func, ast.Attribute) else v.func.id if isinstance(v.func, ast.Name) else None
+                            if nm:
+                                nxt = repo.cls(c0.mod, nm)
+            owner = nxt
+            if owner is None and depth + 1 < len(chain):
+                raise AnalysisError("BurstForwarder(%s): class of `.%s` does not resolve" % (canon(arg), attr))
+        # the forwarder keeps the object it was given (no copy in its constructor)
+        fci = repo.need_class("burst_fwd", "BurstForwarder")
+        c1, i1 = repo.find_method(fci, "__init__")
+        if i1 is None:
+            raise AnalysisError("BurstForwarder.__init__ does not resolve")
+        p0 = params(i1)[1] if len(params(i1)) > 1 else None
+        keeps = []
+        for n_ in ast.walk(i1):
+            if isinstance(n_, ast.Assign) and any(isinstance(t, ast.Attribute) and canon(t.value) == "self" for t in n_.targets):
+                v = n_.value
+                vals = v.values if isinstance(v, ast.BoolOp) else [v.body, v.orelse] if isinstance(v, ast.IfExp) else [v]
+                if any(isinstance(x, ast.Name) and x.id == p0 for x in vals):
+                    keeps.append(canon(n_)[:50])
+        # (subclass constructors passing the argument on are followed one level)
+        if not keeps:
+            for c in calls_in(i1):
+                if any(isinstance(a, ast.Name) and a.id == p0 for a in c.args) and isinstance(c.func, ast.Attribute) \
+                        and c.func.attr == "__init__":
+                    keeps.append(canon(c)[:50])
+        L.ob("C02.R6", rel(c1.mod.name), "%s.__init__" % c1.name,
+             "the forwarder stores the list object it is given (no copy)", ">=1 aliasing store", keeps, bool(keeps), i1.lineno)
+
+
 def run(L, tier):
     repo = Repo(L.repo)
     L.stage(r1_forward_msg, L, repo)
@@ -364,3 +524,4 @@ def run(L, tier):
     L.stage(r2_setfh_order, L, repo)
     L.stage(r3_ticks, L, repo)
     L.stage(r5_who_may_call, L, repo, tier)
+    L.stage(r6_list_identity, L, repo)
